@@ -18,6 +18,8 @@ var c17Texts = [][]byte{
 	[]byte(`he said "hi" \ and 'bye'`), []byte("tab\there\nnew\r\nline\x01\x1f\x7f"), []byte("<a href=\"x\">&amp;</a>"),
 	[]byte("h\xc3\xa9llo w\xc3\xb6rld \xe2\x82\xac \xf0\x9f\x98\x80"), []byte("bad\xff\xfeutf\xc3"), []byte("a,b;c\n1,2;3"),
 	[]byte("\u2028\u2029 line seps"), []byte("aab ab b"), []byte("x"), []byte(""),
+	// text that already LOOKS like JSON escapes (searching JSON / source code): backslash + u003c etc.
+	[]byte("lit \\u003c \\u003e \\u0026 \\u2028 \\n \\\" \\\\ \\/ end"), []byte("{\"k\":\"v\\u0041\\\"\"}"),
 }
 
 var c17Programs = []string{
